@@ -137,7 +137,9 @@ def count_race_case(seed, i, engine):
     lines += ["gated 1", "start c1 " + op]
     for _ in range(r.randint(0, 2)):
         lines.append("step c1")                     # somewhere inside the read: compaction-record look, partitions, iterator
-    lines += ["create %s %s" % (hx(keys[-1]), hx(b"late")), "settle", "delete %s 0" % hx(keys[0]), "settle"]
+    # (a create alone, a delete alone, or both: the number of keys must not stay the same by accident in every script)
+    w = [["create %s %s" % (hx(keys[-1]), hx(b"late")), "settle"], ["delete %s 0" % hx(keys[0]), "settle"]]
+    lines += [w[0], w[1], w[0] + w[1]][(i // 3) % 3]
     lines += ["step c1"] * 8
     return core.ImplOnlyCase("backend", lines, {"engine": engine, "count_race": True}, timeout=60)
 
